@@ -238,8 +238,18 @@ def a123(run, mod, fn, L):
                 m = re.fullmatch(re.escape(f_) + r"\.name in (.+)", a_)
                 if m:
                     I = a_
+                    txt_ = m.group(1)
+                    e_ = None
                     try:
-                        names |= set(ast.literal_eval(m.group(1)))
+                        e_ = ast.parse(txt_, mode="eval").body
+                    except SyntaxError:
+                        pass
+                    # frozenset({...}) / set([...]) / tuple((...)) of literals is the literal collection
+                    if isinstance(e_, ast.Call) and isinstance(e_.func, ast.Name) and e_.func.id in ("frozenset", "set", "tuple", "list") \
+                            and len(e_.args) == 1 and not e_.keywords:
+                        txt_ = ast.unparse(e_.args[0])
+                    try:
+                        names |= set(ast.literal_eval(txt_))
                     except Exception:
                         # not a literal: a table of names built from the layout classes - evaluated like the layout tables are
                         from ..specmodel import TupleV
